@@ -329,8 +329,198 @@ fn gen_dyn(ctx: &Ctx, sink: &mut dyn FnMut(String)) {
     }
 }
 
+// ---------- c07-sched: the phase-1 scheduler against its Lean model ----------
+
+type Cells = Vec<((i32, i32), String)>;
+
+fn enc_cells(cells: &Cells) -> String {
+    cells.iter().map(|((r, c), t)| format!("{r}.{c}.{}", hex(t))).collect::<Vec<_>>().join("|")
+}
+
+fn dec_cells(x: &str) -> Cells {
+    x.split('|')
+        .filter_map(|e| {
+            let p: Vec<&str> = e.split('.').collect();
+            Some(((p.first()?.parse().ok()?, p.get(1)?.parse().ok()?), unhex(p.get(2)?)?))
+        })
+        .collect()
+}
+
+/// builds the sheet, evaluates ONCE, and reads the scheduler's trace through the verif hook:
+/// (model, number of anchors, recorded oracle, answer = final order / restarts / bound reached)
+fn run_engine(cells: &Cells) -> (Model<'static>, usize, String, String, Vec<(u32, i32, i32)>) {
+    let mut m = Model::new_empty("c07", "en", "UTC", "en").unwrap();
+    for ((r, c), t) in cells {
+        let _ = m.set_user_input(0, *r, *c, t.clone());
+    }
+    m.evaluate();
+    let (passes, fin) = ironcalc_base::verif::phase1::trace();
+    let (_, restarts, gave_up) = ironcalc_base::verif::phase1::last();
+    let natural: Vec<(u32, i32, i32)> = passes.first().map(|p| p.0.clone()).unwrap_or_default();
+    let id = |p: &(u32, i32, i32)| natural.iter().position(|q| q == p).unwrap_or(999);
+    let oracle: Vec<String> = passes
+        .iter()
+        .map(|(order, conflict)| match conflict {
+            None => "-".to_string(),
+            Some((i, js)) => format!("{}:{}", id(&order[*i]), js.iter().map(|j| id(&order[*j]).to_string()).collect::<Vec<_>>().join(".")),
+        })
+        .collect();
+    let ans = format!("{} {} {}", fin.iter().map(|p| id(p).to_string()).collect::<Vec<_>>().join("."), restarts, if gave_up { 1 } else { 0 });
+    (m, natural.len(), oracle.join("/"), ans, natural)
+}
+
+/// anchors with LITERAL sizes on disjoint blocks whose formulas read (through `0*SUM(range)`) parts of
+/// other anchors' blocks: the relation "a reads what b writes" is known without running anything
+fn gen_static(rng: &mut Rng) -> (Cells, String) {
+    let n = rng.range(2, 7) as usize;
+    let mut slots: Vec<(i32, i32)> = vec![];
+    while slots.len() < n {
+        let s = (rng.range(0, 3) as i32, rng.range(0, 3) as i32);
+        if !slots.contains(&s) {
+            slots.push(s);
+        }
+    }
+    slots.sort();
+    let pos: Vec<(i32, i32)> = slots.iter().map(|(sr, sc)| (2 + 4 * sr, 2 + 4 * sc)).collect();
+    let dims: Vec<(i32, i32)> = (0..n).map(|_| (rng.range(1, 3) as i32, rng.range(1, 3) as i32)).collect();
+    let acyclic = rng.chance(4, 5);
+    let mut rank: Vec<usize> = (0..n).collect();
+    shuffle(&mut rank, rng);
+    let mut cells: Cells = vec![];
+    let mut pairs: Vec<String> = vec![];
+    for a in 0..n {
+        let mut sums: Vec<String> = vec![];
+        for b in 0..n {
+            if a == b || !rng.chance(2, 5) || (acyclic && rank[b] >= rank[a]) {
+                continue;
+            }
+            let (r, c) = pos[b];
+            let (h, w) = dims[b];
+            // the whole block, its last row, its first column, its last cell, or the anchor cell only
+            let (r1, c1, r2, c2) = match rng.below(5) {
+                0 => (r, c, r + h - 1, c + w - 1),
+                1 => (r + h - 1, c, r + h - 1, c + w - 1),
+                2 => (r, c, r + h - 1, c),
+                3 => (r + h - 1, c + w - 1, r + h - 1, c + w - 1),
+                _ => (r, c, r, c),
+            };
+            sums.push(format!("SUM({}:{})", a1(r1, c1), a1(r2, c2)));
+            pairs.push(format!("{a}>{b}"));
+        }
+        let (h, w) = dims[a];
+        let text = if sums.is_empty() { format!("=SEQUENCE({h},{w})") } else { format!("=SEQUENCE({h},{w})+0*({})", sums.join("+")) };
+        cells.push((pos[a], text));
+    }
+    let stat = format!("{}:{}", if acyclic { "A" } else { "C" }, if pairs.is_empty() { "-".to_string() } else { pairs.join(".") });
+    (cells, stat)
+}
+
+fn eval_sched(req: &str) -> ImplOut {
+    let f: Vec<&str> = req.split(' ').collect();
+    if f.len() < 5 {
+        return ImplOut::new("bad-request".into()).trivial();
+    }
+    let cells = dec_cells(f[2]);
+    let (m, n, oracle, ans, natural) = run_engine(&cells);
+    let mut out = ImplOut::new(ans.clone());
+    if oracle != f[4] || n.to_string() != f[3] {
+        out = out.fail("c07:sched:trace-not-reproducible", &format!("recorded {} anchors {}, now {} anchors {}", f[3], f[4], n, oracle));
+    }
+    let parts: Vec<&str> = ans.split(' ').collect();
+    let gave_up = parts.get(2) == Some(&"1");
+    let restarts: usize = parts.get(1).and_then(|x| x.parse().ok()).unwrap_or(0);
+    out = out.tag(match restarts {
+        0 => "restarts:0",
+        1..=3 => "restarts:1-3",
+        _ => "restarts:4+",
+    });
+    out = out.tag(&format!("anchors:{n}"));
+    if gave_up {
+        out = out.tag("phase1:bound-reached");
+    }
+    // the statically known relation (suite part `static`)
+    if let Some(stat) = f.get(5) {
+        let (kind, list) = stat.split_once(':').unwrap_or(("C", "-"));
+        let pairs: Vec<(usize, usize)> = list
+            .split('.')
+            .filter_map(|p| p.split_once('>'))
+            .filter_map(|(a, b)| Some((a.parse().ok()?, b.parse().ok()?)))
+            .collect();
+        let order: Vec<usize> = parts[0].split('.').filter_map(|x| x.parse().ok()).collect();
+        out = out.tag(if kind == "A" { "static:acyclic" } else { "static:any" });
+        if !gave_up && kind == "A" {
+            // theorem (a) on the engine: nobody reads what a later anchor writes (on a cyclic relation
+            // results are errors, blocks shrink to the anchor and the relation is not the static one)
+            for (p, a) in order.iter().enumerate() {
+                for b in order.iter().skip(p + 1) {
+                    if pairs.contains(&(*a, *b)) {
+                        out = out.fail("c07:sched:final-order-unsound", &format!("anchor {a} reads what anchor {b} writes but is placed before it: {}", parts[0]));
+                    }
+                }
+            }
+        }
+        if kind == "A" {
+            if gave_up {
+                out = out.fail("c07:sched:bound-reached-on-acyclic-relation", &format!("{n} anchors, {restarts} restarts, relation {list}"));
+            }
+            // every block holds its own SEQUENCE after the single evaluate
+            for (k, ((r, c), text)) in cells.iter().enumerate() {
+                let dims: Vec<i32> = text.trim_start_matches("=SEQUENCE(").split(')').next().unwrap_or("").split(',').filter_map(|x| x.parse().ok()).collect();
+                if dims.len() != 2 {
+                    continue;
+                }
+                for i in 0..dims[0] {
+                    for j in 0..dims[1] {
+                        let want = (i * dims[1] + j + 1) as f64;
+                        match m.get_cell_value_by_index(0, r + i, c + j) {
+                            Ok(CellValue::Number(x)) if x == want => {}
+                            other => {
+                                out = out.fail("c07:sched:value-after-single-evaluate", &format!("anchor {k} `{text}` cell {} holds {:?}, expected {want}", a1(r + i, c + j), other));
+                            }
+                        }
+                    }
+                }
+            }
+        }
+    }
+    let _ = natural;
+    out.nontrivial = n > 0;
+    out
+}
+
+fn gen_sched(ctx: &Ctx, sink: &mut dyn FnMut(String)) {
+    let mut rng = Rng::new(ctx.seed ^ 0xC07_0002);
+    let count = if ctx.tier == Tier::Quick { 120 } else { 4000 };
+    let mut emit = |cells: Cells, stat: Option<String>, sink: &mut dyn FnMut(String)| {
+        let (_, n, oracle, _, _) = run_engine(&cells);
+        match stat {
+            Some(s) => sink(format!("c07 sched {} {n} {oracle} {s}", enc_cells(&cells))),
+            None => sink(format!("c07 sched {} {n} {oracle}", enc_cells(&cells))),
+        }
+    };
+    for _ in 0..count {
+        let mut r = rng.fork();
+        emit(gen_dyn_set(&mut r), None, sink);
+        let mut r = rng.fork();
+        emit(crate::suites::c31::gen_agg_set(&mut r).0, None, sink);
+        for _ in 0..2 {
+            let mut r = rng.fork();
+            let (cells, stat) = gen_static(&mut r);
+            emit(cells, Some(stat), sink);
+        }
+    }
+}
+
 pub fn suites() -> Vec<Suite> {
     vec![
+        Suite {
+            name: "c07-sched",
+            rule: "the phase-1 scheduler of Model::evaluate against its Lean model (Eval/Phase1.lean): cell sets from the c07-dyn and c31-agg generators and sets of 2-7 anchors with literal sizes that read parts of each other's blocks (acyclic 4/5, arbitrary 1/5); one evaluate; the trace read through the cfg(ironcalc_verif) hook (order per pass, all conflicts found) is the oracle handed to the Lean scheduler, whose final order, restart count and bound flag must equal the engine's; oracle on the engine with the statically known relation: final order sound (nobody reads what a later anchor writes), bound never reached on an acyclic relation, every block exact after the single evaluate; non-trivial = at least one anchor",
+            modelled: true,
+            gen: gen_sched,
+            eval: eval_sched,
+            exhaustive: never,
+        },
         Suite {
             name: "c07-order",
             rule: "a cell-input set over the modelled fragment (C05 generator: 1-3 sheets, 5-60 cells, cycles, IF/IFERROR, ranges) built in k shuffled orders x {evaluate once at the end, after every edit} x {with, without to_bytes/from_bytes half way}; each build evaluated twice; oracle: all value maps equal; the natural-order values vs the Lean driver; non-trivial = at least one formula",
